@@ -117,7 +117,7 @@ func TestC17(t *testing.T) {
 		V.ClassIf(la != lb, "list layout differs")
 	}
 
-	rcheck(t, "requests", V.N(500, 10000), func(rt *rapid.T) {
+	rcheck(t, "requests", V.N(1200, 10000), func(rt *rapid.T) {
 		rc := s.gRelayRequest(rt, relayOpts{Paths: []string{"backend", "route", "static"}, MaxVias: 5, MaxRRs: 3, MaxExt: 8, MaxLong: 0, MaxBody: 200, Entries: []int{0, 1}})
 		twin := restyle(rt, "twin", rc.Msg)
 		rc2 := rc
@@ -161,7 +161,7 @@ func TestC17(t *testing.T) {
 		}
 	})
 
-	rcheck(t, "responses", V.N(250, 5000), func(rt *rapid.T) {
+	rcheck(t, "responses", V.N(600, 5000), func(rt *rapid.T) {
 		rc := s.gRelayResponse(rt, 8, 0, 200)
 		twin := restyle(rt, "twin", rc.Msg)
 		rc2 := rc
@@ -198,7 +198,7 @@ func TestC17(t *testing.T) {
 	})
 
 	// dialog histories: the pinning decision must not depend on spelling
-	rcheck(t, "dialogs", V.N(120, 2500), func(rt *rapid.T) {
+	rcheck(t, "dialogs", V.N(300, 2500), func(rt *rapid.T) {
 		l := s.in.cfg.Listens[0]
 		runDialog := func(label string, respell bool) (bool, string) {
 			id := s.nextID("c17d")
